@@ -35,6 +35,7 @@ type c14Scenario struct {
 	IOHandler bool        `json:"io_on_handler"`
 	Restart   string      `json:"redundant_start,omitempty"` // "", "Start", "StartWithVal": called again on the running target
 	RestartD  int         `json:"redundant_start_delay_yields,omitempty"`
+	LateStart int         `json:"target_started_after_n_yields,omitempty"` // callers may queue requests before the target runs
 	Callers   []c14Caller `json:"callers"`
 
 	h      *Hist
@@ -60,7 +61,10 @@ func genC14(t *simrt.Tape, tier string) Scenario {
 	sc.Shape = []string{"fixed", "echo", "accumulate"}[t.Choose(3)]
 	sc.StartVal = t.Bool(1, 3)
 	sc.IOHandler = t.Bool(1, 2)
-	if t.Bool(1, 3) {
+	if !sc.StartVal && t.Bool(1, 4) {
+		sc.LateStart = 1 + t.Choose(12)
+	}
+	if sc.LateStart == 0 && t.Bool(1, 3) {
 		// starting an already started coroutine again must change nothing
 		sc.Restart = []string{"StartWithVal", "Start"}[t.Choose(2)]
 		sc.RestartD = t.Choose(10)
@@ -139,13 +143,24 @@ func (sc *c14Scenario) Run(s *simrt.Sim) {
 		sc.extra = append(sc.extra, Violation{Clause: "lifecycle", Fingerprint: "IsStarted-before-start", Detail: "IsStarted() true before Start"})
 	}
 	sc.v0 = 7000001
-	if sc.StartVal {
-		h.Do("main", "StartWithVal", sc.v0, func() (interface{}, error) { target.StartWithVal(sc.v0); return nil, nil })
+	var lateStarter *simrt.Thread
+	if sc.LateStart > 0 {
+		// the callers' first requests are buffered in the target's mailbox before its effect runs
+		lateStarter = s.Go("late-starter", func() {
+			for i := 0; i < sc.LateStart; i++ {
+				s.YieldHard()
+			}
+			h.Do("late-starter", "Start", nil, func() (interface{}, error) { target.Start(); return nil, nil })
+		})
 	} else {
-		h.Do("main", "Start", nil, func() (interface{}, error) { target.Start(); return nil, nil })
-	}
-	if op := h.Do("main", "IsStarted", nil, func() (interface{}, error) { return target.IsStarted(), nil }); op.Val != true {
-		sc.extra = append(sc.extra, Violation{Clause: "lifecycle", Fingerprint: "IsStarted-after-start", Detail: "IsStarted() false after Start returned"})
+		if sc.StartVal {
+			h.Do("main", "StartWithVal", sc.v0, func() (interface{}, error) { target.StartWithVal(sc.v0); return nil, nil })
+		} else {
+			h.Do("main", "Start", nil, func() (interface{}, error) { target.Start(); return nil, nil })
+		}
+		if op := h.Do("main", "IsStarted", nil, func() (interface{}, error) { return target.IsStarted(), nil }); op.Val != true {
+			sc.extra = append(sc.extra, Violation{Clause: "lifecycle", Fingerprint: "IsStarted-after-start", Detail: "IsStarted() false after Start returned"})
+		}
 	}
 	var hd *fpgo.HandlerDef
 	if sc.IOHandler {
@@ -214,6 +229,9 @@ func (sc *c14Scenario) Run(s *simrt.Sim) {
 	n := len(sc.Callers)
 	done := func() bool {
 		if callersDone != n || !targetReturned {
+			return false
+		}
+		if lateStarter != nil && !lateStarter.Done() {
 			return false
 		}
 		for _, th := range ths {
